@@ -101,7 +101,9 @@ def build_harness():
     if REPO != "/repo":
         # a background sweep works on its own snapshot of the repository (vp run --with-repo): point the harness at it
         subprocess.run(["go", "mod", "edit", "-replace", "pault.ag/go/debian=" + REPO], cwd=HARNESS, env=GOENV, check=False)
-    p = subprocess.run(["go", "build", "-tags", "verif", "-o", HBIN, "."], cwd=HARNESS, env=GOENV,
+    # VERIF_COVER=1 (with GOCOVERDIR set): a statement-coverage build, to see which library code the vectors never reach
+    cover = ["-cover", "-coverpkg=pault.ag/go/debian/...,verif/harness"] if os.environ.get("VERIF_COVER") else []
+    p = subprocess.run(["go", "build"] + cover + ["-tags", "verif", "-o", HBIN, "."], cwd=HARNESS, env=GOENV,
                        stdout=subprocess.PIPE, stderr=subprocess.STDOUT, text=True)
     if p.returncode != 0:
         # A /repo that does not compile is not a property violation.
